@@ -45,6 +45,9 @@ type T2 = (U16Be, U16Be);
 type T3 = (U8, U16Be, U32Be);
 type T4 = (U8, I8, U8, U8);
 type T2b = (I16Be, U24Be);
+// members of different sizes in every position: a SIZE that counts a member twice or not at all shows
+type T4b = (U8, U16Be, U8, U32Be);
+type T3b = (U32Be, U8, U16Be);
 
 macro_rules! types {
     ($m:ident) => {
@@ -53,7 +56,7 @@ macro_rules! types {
             (A_U24, U24Be, "u24"), (A_U32, U32Be, "u32"), (A_I32, I32Be, "i32"),
             (A_U64, U64Be, "u64"), (A_I64, I64Be, "i64"),
             (A_T2, T2, "u16,u16"), (A_T3, T3, "u8,u16,u32"), (A_T4, T4, "u8,i8,u8,u8"),
-            (A_T2B, T2b, "i16,u24")
+            (A_T2B, T2b, "i16,u24"), (A_T4B, T4b, "u8,u16,u8,u32"), (A_T3B, T3b, "u32,u8,u16")
         }
     };
 }
